@@ -668,9 +668,53 @@ func (e *Engine) checkC14() []*Obligation {
 			}
 			obls = append(obls, o)
 		}
+		// a variable that is assigned again after TryCache carries, from there on, a value the key
+		// does not know unless everything the new value is computed from (and every condition
+		// deciding whether the assignment happens) is covered as a computed-from source: an
+		// output path may be read directly, but a value derived from it is not covered by that.
+		reassigned := map[types.Object]string{}
+		ast.Inspect(fd.Body, func(n ast.Node) bool {
+			as, ok := n.(*ast.AssignStmt)
+			if !ok || as.Pos() <= tryPos {
+				return true
+			}
+			var srcs []types.Object
+			for _, r := range as.Rhs {
+				srcs = append(srcs, identsIn(info, r)...)
+			}
+			ast.Inspect(fd.Body, func(m ast.Node) bool {
+				if is, ok := m.(*ast.IfStmt); ok && is.Body.Pos() <= as.Pos() && as.End() <= is.Body.End() && is.Pos() > tryPos {
+					srcs = append(srcs, identsIn(info, is.Cond)...)
+				}
+				return true
+			})
+			for _, l := range as.Lhs {
+				id, ok := l.(*ast.Ident)
+				if !ok {
+					continue
+				}
+				o := info.ObjectOf(id)
+				if o == nil || !(tainted(o) || inPayload[o]) {
+					continue
+				}
+				for _, sr := range srcs {
+					if sr == o || !tainted(sr) {
+						continue
+					}
+					if !covered(sr, 1) {
+						reassigned[o] = fmt.Sprintf("%s is assigned again at %s, after TryCache, from %s, which the cache key does not cover as a source of computed values", o.Name(), posOf(pkg, as.Pos()), sr.Name())
+					}
+				}
+			}
+			return true
+		})
 		sort.Slice(uses, func(i, j int) bool { return uses[i].o.Name() < uses[j].o.Name() })
 		for _, u := range uses {
 			ok := allowed[u.o.Name()] || covered(u.o, 0)
+			if why, bad := reassigned[u.o]; bad {
+				ok = false
+				_ = why
+			}
 			from := "option " + optVars[u.o]
 			if srcs, isDer := derived[u.o]; isDer {
 				var ns []string
@@ -691,6 +735,9 @@ func (e *Engine) checkC14() []*Obligation {
 			} else {
 				o.Decided = "failed"
 				o.Result = SolverResult{Status: "sat", Solver: "def-use", Raw: fmt.Sprintf("%s is read at %s but does not occur in the encodePayload tuple list of %s and is not computed only from payload members", u.o.Name(), posOf(pkg, u.pos), name)}
+				if why, bad := reassigned[u.o]; bad {
+					o.Result.Raw = why
+				}
 			}
 			obls = append(obls, o)
 		}
